@@ -12,7 +12,8 @@ RULE = ('E1 (Hypothesis): arrays of all 7 kinds x 5 subtypes, 0..8 elements draw
         'extremes of the subtype, NaN / +-inf coordinates for float subtypes), missing and empty elements at any position, '
         're-backed (slice / slice-of-slice / take / concat / pickle) buffers; oracle = pure-Python min/max over finite '
         'coordinates per axis. Checked: bounds, total_bounds, total_bounds_x/_y, GeoSeries.bounds/total_bounds, '
-        'sindex.total_bounds, Dask bounds/total_bounds over a drawn partitioning (empty partitions included). '
+        'sindex.total_bounds, Dask bounds/total_bounds over a drawn partitioning (empty partitions included), Dask total_bounds after '
+        'a row filter applied to a frame whose partition bounds were already cached. '
         'Non-trivial: a missing element, a non-finite coordinate, or a non-zero buffer offset. distinct = distinct cases.')
 ASSUMPTIONS = ['pyarrow decodes the stored elements (canonical form) correctly', 'integer -> float64 conversion is correctly rounded on both sides']
 BUDGET = {'quick': {'shards': 16, 'examples': 4800, 'min_evaluations': 2000},
@@ -84,6 +85,15 @@ def evaluate(case):
         dt = lib(B + ['dask.total_bounds'] + tag, lambda: tuple(ddf['g'].total_bounds))
         if not model.same_row(dt, exp_t):
             fails.append((B + ['dask.total_bounds', 'wrong'] + tag, f'got {dt} expected {exp_t}; sizes={sizes} elements={els}'))
+        # after a row filter the Dask versions must describe the rows that are left, also when partition bounds were
+        # cached on the parent frame before filtering
+        cut = case.get('filter_from', 0) % (len(els) + 1)
+        lib(B + ['dask.partition_sindex'] + tag, lambda: ddf.partition_sindex)
+        fddf = lib(B + ['dask.filter'] + tag, lambda: ddf[ddf['v'] >= cut])
+        ft = lib(B + ['dask.filtered.total_bounds'] + tag, lambda: tuple(fddf['g'].total_bounds))
+        exp_f = model.ref_total_bounds(kind, canon[cut:])
+        if not model.same_row(ft, exp_f):
+            fails.append((B + ['dask.filtered.total_bounds', 'wrong'] + tag, f'got {ft} expected {exp_f}; rows >= {cut} kept; sizes={sizes} elements={els}'))
         db = lib(B + ['dask.bounds'] + tag, lambda: ddf['g'].bounds.compute())
         err = _rows_equal(db.values, exp_b)
         if err or list(db.index) != list(idx):
@@ -107,6 +117,7 @@ def _case(draw):
     n = len(case['elements'])
     if draw(st.integers(0, 3)) == 0 and n:
         case['partitions'] = draw(gen.partition_splits(n, 4))
+        case['filter_from'] = draw(st.integers(0, n))
     if draw(st.booleans()):
         case['index'] = [f'k{(i * 7) % 5}' for i in range(n)]
     return case
